@@ -13,34 +13,46 @@ for l in open('/verif/properties.jsonl'):
 # these describe earlier *changes*, nothing about /verif's machinery
 TAKEN = {
  "C04": ["array re-declaration keeps old contents", "a faulting double qalloc leaks a physical qubit / marks it used before the check",
-         "unused physical qubit = size of the used set", "empty array returned to the host as [None]", "bnz taken only for positive values"],
+         "unused physical qubit = size of the used set", "empty array returned to the host as [None]", "bnz taken only for positive values",
+         "qfree removes the virtual address from the in-use set", "modulus check only on addm (subm unchecked)"],
  "C05": ["register-indexed array element compiled as index 0", "ret_arr copies / snapshots the array", "loop_until counter released before the exit condition is built",
          "addm implemented as one conditional subtraction",
-         "reset() keeps the registers-to-return list", "flush with only array declarations pending is skipped", "loop_until gives up one try early"],
+         "reset() keeps the registers-to-return list", "flush with only array declarations pending is skipped", "loop_until gives up one try early",
+         "an array-stored measurement frees all M registers", "bge exit test for non-unit loop steps (breaks count-down loops)"],
  "C06": ["template value 0 left unsubstituted", "builder reset moved between compile() and commit", "instantiate() stops substituting after each name was seen once",
-         "compile() clears return lists by hand (M registers never released)", "templated rotation emitted before its qubit register is set", "early return for template-free subroutines skips the reset"],
+         "compile() clears return lists by hand (M registers never released)", "templated rotation emitted before its qubit register is set", "early return for template-free subroutines skips the reset",
+         "NV transpiler skipped for templated subroutines", "instantiate substitutes in place (shared list across copies)"],
  "C08": ["branch to the end label retargeted wrongly", "scratch electron register never released", "scratch register chosen from the wrong bookkeeping set",
-         "debug=True collapses the SWAP expansion", "cphase with the electron as second operand not swapped", "hardware angle rescaling 2*d instead of 2**d"],
+         "debug=True collapses the SWAP expansion", "cphase with the electron as second operand not swapped", "hardware angle rescaling 2*d instead of 2**d",
+         "transpiler bookkeeping shared between transpiler objects", "old-to-new index map recorded after emitting (label on a gate lands at the end of its expansion)"],
  "C09": ["NV relocation does not update the handle", "_has_virtual_address truthiness (physical qubit 0)", "non-sequential keep takes consecutive IDs from the first hole",
          "measure() deactivates the handle before building commands",
-         "pop(0) of the pending response list", "min-fidelity retry clean-up frees IDs 0..n-1", "NV just-initialised shortcut fires for another qubit"],
+         "pop(0) of the pending response list", "min-fidelity retry clean-up frees IDs 0..n-1", "NV just-initialised shortcut fires for another qubit",
+         "pairs_left decremented in _extract_epr_info", "register measurement (store_array=False) omits the qfree"],
  "C10": ["NV move-to-memory corrects the wrong qubit", "recv_rsp_with_info drops expect_phi_plus", "correction block applied once after the loop",
          "measure-directly post-processing reads pair 0's Bell state for every pair",
-         "PSI_MINUS flip list wrong for MX/MY", "no wait/correction for a sequential single pair", "qlink-1.0 measure response loses its Bell state"],
+         "PSI_MINUS flip list wrong for MX/MY", "no wait/correction for a sequential single pair", "qlink-1.0 measure response loses its Bell state",
+         "double correction with a non-sequential post routine", "the creator corrects too on single-comm-qubit hardware"],
  "C11": ["remote rotations dropped when the local ones are zero", "pop(0) of the pending response list", "qlink-1.0 conversion copies a local angle into a remote field",
-         "recv_measure passes the remote socket id", "deferred keep response still consumes a pair slot"],
+         "recv_measure passes the remote socket id", "deferred keep response still consumes a pair slot",
+         "create-request defaults are one shared dict", "request booked before put() with no rollback when put() raises"],
  "C12": ["pop(0) of the pending response list", "pairs_left decremented before the handler", "directionality flag lost for measure responses",
-         "_has_virtual_address truthiness", "wait_all resumes when any entry is defined", "pending-response loop keeps iterating after a handled response"],
+         "_has_virtual_address truthiness", "wait_all resumes when any entry is defined", "pending-response loop keeps iterating after a handled response",
+         "receive requests filed under the socket id instead of the purpose id", "retiring a request drops the socket's whole request list"],
  "C13": ["stop removes the virtual instead of the physical address", "subroutine ids reused while in flight", "qfree removes the virtual address from the used set",
          "keep response marks the physical qubit before the busy check",
-         "Arrays() shares a mutable default dict", "physical qubit marked used before the checks of qalloc"],
+         "Arrays() shares a mutable default dict", "physical qubit marked used before the checks of qalloc",
+         "load writes the register of the app whose id equals the subroutine id"],
  "C14": ["empty-body loop keeps its register", "condition temporary released too early", "a finished EPR receive keeps one register", "loop_until counter released too early",
-         "M registers only reclaimed if listed for return", "add(<register>) releases the register of the caller", "index temporary of a future-indexed element never released"],
+         "M registers only reclaimed if listed for return", "add(<register>) releases the register of the caller", "index temporary of a future-indexed element never released",
+         "array-initialisation loop register never released", "RegFuture.add leaks its temporary"],
  "C18": ["disconnect pops the peer's receive callback", "connect clears the inbox after the socket is visible", "recv pops from a snapshot and writes it back",
          "disconnect removes the wrong key from the remote set",
-         "connect records itself as remote only if the peer is not open", "recv_structured ignores block=False", "broadcast recv pops every pending socket and returns the last"],
+         "connect records itself as remote only if the peer is not open", "recv_structured ignores block=False", "broadcast recv pops every pending socket and returns the last",
+         "remote marker published before the open entry", "broadcast sweep stops at the first empty socket"],
  "C20": ["parity_meas flips back by the first qubit's basis", "negative angles folded with fmod", "parity_meas keeps its ancilla",
-         "toffoli: last T-dagger and CNOT swapped", "trivial Pauli string returns before the sign flip", "single-qubit parity outcome kept in a register"],
+         "toffoli: last T-dagger and CNOT swapped", "trivial Pauli string returns before the sign flip", "single-qubit parity outcome kept in a register",
+         "array addresses restart after every flush (memmgr)", "qfree releases the wrong physical-qubit number (executor)"],
 }
 
 taken = "".join(f"\n  - {t}" for t in TAKEN.get(pid, []))
